@@ -88,18 +88,37 @@ def run_case(spec):
                 data[k] = [v.copy(), v.copy() * (1.0 if k != 'alpha' else 1.0)]
             want = [o[1] for o in ops if o[0] == 'key' and o[1] not in CONTAINERS][:12]
 
+            returned = []
+
             def custom(rel):
                 # long enough for several clean-ups to run while it is evaluated
-                return rel['Ktrace'] * 2.0 + rel['Hamiltonian'] * 0 + rel['s_RicciS'] * 0
+                out = rel['Ktrace'] * 2.0 + rel['Hamiltonian'] * 0 + rel['s_RicciS'] * 0
+                returned.append(out)
+                return out
+
+            def custom_press(rel):
+                # a user-supplied field under a catalogue name: it replaces the
+                # built-in default for the rest of the step
+                return np.full(n, 0.37)
             ident = [k for k in ('alpha', 'Ktrace_in') if False]
             probes = ['gxx', 'kxy', 'betaz'] if spec['style'] != 'components' else ['gammadown3', 'Kdown3']
             with common.Quiet():
                 try:
-                    tab = atime.over_time(data, fd, vars=[{'myvar': custom}] + probes + want,
+                    cust = ([{'press': custom_press}, {'press2': lambda rel: rel['press'] * 2.0}]
+                            if 'press' not in data else []) + [{'myvar': custom}]
+                    tab = atime.over_time(data, fd, vars=cust + probes + want,
                                           estimates=['max'], verbose=False, **{
                                               k: v for k, v in kw.items() if k != 'verbose'})
                     # quantities that are pure re-packagings of the frozen inputs
                     # must come back as given (no fall-back to the defaults)
+                    if len(cust) == 3 and not all(np.array_equal(np.asarray(tab['press'][row]),
+                                                                 np.full(n, 0.37)) for row in range(nsteps)):
+                        violations.append(("I1 custom variable of over_time was lost during the step"
+                                           " (fell back to the built-in default)", {"var": "press"}))
+                    if not all(any(np.array_equal(np.asarray(tab['myvar'][row]), a) for a in returned)
+                               for row in range(nsteps)):
+                        violations.append(("I1 custom variable of over_time was lost during the step",
+                                           {"var": "myvar"}))
                     ij = {'gxx': ('gammadown3', (0, 0)), 'kxy': ('Kdown3', (0, 1))}
                     for pk in probes:
                         for row in range(nsteps):
@@ -126,7 +145,16 @@ def run_case(spec):
                     inputs[k] = np.array(ex[k], copy=True)
             with common.Quiet():
                 rel = A.AurelCore(fd, **kw)
-                if spec['route'] == 'load_data':
+                if spec['route'] == 'load_data' and spec['hseed'] % 2 and len(inputs) > 1:
+                    # geometry first, a look at it, then the rest: the second
+                    # call must not disturb what the first one froze
+                    names = list(inputs)
+                    half = max(1, len(names) // 2)
+                    rel.load_data({k: [None, inputs[k]] for k in names[:half]}, 1)
+                    for k in names[:half] + ['gammadet']:
+                        rel[k]
+                    rel.load_data({k: [inputs[k]] for k in names[half:]}, 0)
+                elif spec['route'] == 'load_data':
                     sim = {k: [None, v] for k, v in inputs.items()}
                     rel.load_data(sim, 1)
                 else:
@@ -138,8 +166,30 @@ def run_case(spec):
                         # is protected yet, so no clean-up pressure while peeking
                         rel.clear_cache_every_nbr_calc = 10 ** 9
                         rel.memory_threshold_inGB = 1e9
+                        if spec['style'] == 'components' and spec['hseed'] % 2:
+                            # regular clean-ups do run while peeking at the
+                            # scalar inputs, but each of them is re-read often
+                            # enough to be kept (age <= 6 against a period of
+                            # 12): the clean-up weighs them while they are still
+                            # ordinary entries. Larger inputs are typed in later.
+                            late = {q: rel.data.pop(q) for q in list(inputs) if np.ndim(inputs[q]) != 3}
+                            rel.clear_cache_every_nbr_calc = 12
+                            for k in ('gammadet', 'Ktrace', 'betamag', 'gammadet', 'Kdown3',
+                                      'betadown3', 'Aup3', 's_Gamma_udd3', 'dtalpha', 'Ktrace',
+                                      'Adown3', 'A2', 'gammadown3_bssnok', 'phi_bssnok'):
+                                if rel.calculation_count >= 13:
+                                    break
+                                if rel.calculation_count % 12 < 7:
+                                    for q in inputs:
+                                        if q not in late:
+                                            rel[q]
+                                rel[k]
+                            rel.data.update(late)
                         for k in ('gammadet', 'alpha', 'Ktrace', list(inputs)[0]):
                             rel[k]
+                        for q, v in inputs.items():       # (anything evicted while unprotected
+                            if q not in rel.data:         #  is simply put back before freezing)
+                                rel.data[q] = v
                         rel.clear_cache_every_nbr_calc = spec['cache']['every']
                         rel.memory_threshold_inGB = spec['cache']['gb']
                     rel.freeze_data()
